@@ -494,6 +494,8 @@ CONSTS = {
 
 
 def call_ext(ex, path, args, kw):
+    if ('ext:' + path) in ex.overrides:            # contract-supplied stand-in for one external call (stated in the contract)
+        return ex.overrides['ext:' + path](ex, list(args), dict(kw))
     f = EXT.get(path)
     if f is None:
         if path.startswith('matplotlib') or path.startswith('tqdm'):
@@ -1386,3 +1388,44 @@ def np_cumsum(ex, a, axis=None, **kw):
         raise Unsupported('cumsum of nd / complex arrays')
     f = z3.Function(f'cumsum!{next(ex.fresh)}', z3.IntSort(), z3.RealSort() if a.kind == 'float' else z3.IntSort())
     return Arr(a.shape, lambda idx: f(tonum(idx[0])), a.kind)
+
+
+# ------------------------------------------------------------------------------------------ opaque numerics (congruence only)
+class Record:
+    """result object of an external call: attribute bag"""
+    def __init__(self, **attrs):
+        self._pyvc_attrs = attrs
+
+
+@ext('scipy.integrate.solve_ivp')
+def sp_solve_ivp(ex, fun, t_span=None, y0=None, method='RK45', args=None, vectorized=False, **kw):
+    """numerically opaque: a deterministic function of its arguments (congruence only); the call is recorded so that contracts can
+    compare the arguments of two calls"""
+    y0 = _arr(ex, y0)
+    ex.event('solve_ivp', {'fun': fun, 't_span': t_span, 'y0': y0, 'method': method, 'args': args, 'vectorized': vectorized})
+    k = next(ex.fresh)
+    T = ex.newvar('nt', 'int')
+    ex.assume(T >= 1)
+    fr = z3.Function(f'ivp_re!{k}', z3.IntSort(), z3.IntSort(), z3.RealSort())
+    fi = z3.Function(f'ivp_im!{k}', z3.IntSort(), z3.IntSort(), z3.RealSort())
+    y = Arr([y0.shape[0], T], lambda idx: Cx(fr(tonum(idx[0]), tonum(idx[1])), fi(tonum(idx[0]), tonum(idx[1]))), 'complex')
+    ex.event('solve_ivp_result', y)
+    return Record(y=y, t=Arr([T], lambda idx: ex.newvar('t', 'real'), 'float'), success=True)
+
+
+@ext('scipy.signal.find_peaks')
+def sg_find_peaks(ex, x, **kw):
+    n = ex.newvar('npeaks', 'int')
+    ex.assume(n >= 0)
+    f = z3.Function(f'peak!{next(ex.fresh)}', z3.IntSort(), z3.IntSort())
+    return (Arr([n], lambda idx: f(tonum(idx[0])), 'int'), {})
+
+
+@ext('scipy.signal.peak_widths')
+def sg_peak_widths(ex, x, peaks, **kw):
+    peaks = _arr(ex, peaks)
+    outs = []
+    for q in range(4):
+        f = z3.Function(f'pw{q}!{next(ex.fresh)}', z3.IntSort(), z3.RealSort())
+        outs.append(Arr(list(peaks.shape), (lambda idx, f=f: f(tonum(idx[0]))), 'float'))
+    return tuple(outs)
